@@ -107,6 +107,8 @@ pub struct Profile {
     pub num_counters: Vec<usize>,
     pub getmut_write: bool,
     pub negative_max: bool,
+    /// a share of explicit costs below zero (accepted by the API; only the Coster rule of C16 looks at them)
+    pub negative_costs: bool,
     pub big_advances: bool,
     /// weight of E2 interposition ops (schedule mode only)
     pub interpose: u32,
@@ -136,6 +138,7 @@ impl Default for Profile {
             num_counters: vec![2, 3, 8, 16, 33, 64],
             getmut_write: false,
             negative_max: false,
+            negative_costs: false,
             big_advances: true,
             interpose: 0,
             interpose_clear_only: false,
@@ -330,6 +333,7 @@ pub fn op_strategy(p: &Profile, cfg: &Config) -> BoxedStrategy<Op> {
     let internal = if cfg.ignore_internal_cost { 0 } else { item_size() };
     let w = &p.w;
     let cost = cost_strategy(cfg.max_cost, internal);
+    let cost = if p.negative_costs { prop_oneof![9 => cost, 1 => -3i64..=-1].boxed() } else { cost };
     let tag = tag_strategy(cfg.max_cost, internal);
     let ttl = ttl_strategy(p.ttl_pct);
     let umc_vals: BoxedStrategy<i64> = if cfg.max_cost > (1 << 30) {
